@@ -135,13 +135,13 @@ def make_config(policy=None):
     return cfg
 
 
-def new_csvpath(policy=None, printer=True, **kw):
+def new_csvpath(policy=None, printer=True, print_default=False, **kw):
     """a standalone CsvPath whose error policy is `policy` from construction on
     (ErrorCommsManager captures the policy list in CsvPath.__init__)."""
     from csvpath import CsvPath
 
     cfg = make_config(policy)
-    c = CsvPath(config=cfg, print_default=False, **kw)
+    c = CsvPath(config=cfg, print_default=print_default, **kw)
     cap = None
     if printer:
         cap = CapturePrinter()
